@@ -78,6 +78,8 @@ class EquationSolver(object):
         if self.RunEquationReduction:
             parser.EquationReduction()
         self.Parser = parser
+        # The variable list is derived from the parser; force it to be rebuilt.
+        self.VariableList = []
         if self.MaxTime is not None:
             self.Parser.MaxTime = self.MaxTime
         if len(msg) > 0:
